@@ -5,12 +5,45 @@ HERE = os.path.dirname(os.path.dirname(os.path.abspath(__file__)))
 BASE = json.load(open('/root/.vp/BASELINE.json'))
 
 # id -> (category, text, note, technique, design_ref)
+PROOF_NOTE = ('trusted base: the VC generator engine/pyvc (own, ~2k lines; mitigated by deliberate-mutant runs and canaries), the assumed numpy contracts '
+              'engine/pyvc/npspec.py, the sum/count update axioms of engine/pyvc/core.py:spec_axioms, z3; floats as reals, ints unbounded, no aliasing between '
+              'parameters, partial correctness. Parts labelled bounded are never counted as proved.')
+BND = ('BOUNDED stand-in only (no obligation discharged for all inputs yet): the property\'s contract is executed on the real functions over exhaustively '
+       'enumerated small scopes with independent oracles; bounds are stated in the evidence. ')
+BND_NOTE = 'trusts the oracles in checks/bounded/%s.py and the enumerators of engine/graphs.py; nothing is proved beyond the stated bounds'
 CLAIMS = {
- 'C01': ('exploration',
-         'BOUNDED stand-in only so far: the rewiring contracts (edge-list/matrix correspondence, degrees, weight multiset, diagonal, symmetry, out-strength, zero-rewirings identity, latticiser re-indexing) are woven into the real routines and evaluated at every loop head and at return, for all labelled graphs n=4 (und) / sampled n=4 (dir), n=5 sampled, and every random-choice script up to a stated depth.',
-         'trusts: AST weaving (nothing removed from the function), scripted RandomState faithfully replacing numpy draws, output oracles in checks/bounded/rewire.py; not proved for all inputs',
-         'runtime contracts woven into real code + exhaustive small-scope enumeration with scripted RNG (bounded)', '5/C01'),
+ 'C01': ('proof',
+         'Deductive: for randmio_und/_dir, randmio_und/_dir_connected, latmio_und/_dir, latmio_und/_dir_connected and randomize_graph_partial_und the whole function '
+         'body is symbolically executed from /repo\'s source against sidecar contracts; loop invariants (edge list names present, pairwise distinct connections; '
+         'per-node in/out degree; weight multiset via an arbitrary statistic F; diagonal; symmetry; out-strength; eff=0 => identity; argument untouched) and the '
+         'postconditions of the statement (incl. latticiser re-indexing L1 and degrees under the caller\'s numbering) are discharged by z3 for all n, all budgets, '
+         'all random draws. randomizer_bin_und is outside the subset: bounded only (all graphs n<=5, both dtypes). The same contracts are also woven into the real '
+         'functions and run over all graphs n=4 / sampled n=5 with every random-choice script to a stated depth (bounded cross-check, supplies replay inputs).',
+         PROOF_NOTE + ' Abstracted blocks (havoc of their write set, syntactic frame obligation): connectivity test of the *_connected variants, default-D construction of the latticisers.',
+         'contract-based deductive verification: own AST->VC generator (pyvc) + z3 on the real source; runtime-woven contracts on exhaustive small scopes as bounded stand-in', '5/C01'),
+ 'C06': ('proof',
+         'Deductive for randmio_dir_signed and randmio_und_signed (loop invariants: per-node positive/negative in- and out-degree counts, positive and negative weight '
+         'multisets via arbitrary F, diagonal untouched, symmetry, eff=0 => identity; callee pick_four_unique_nodes_quickly by contract), all discharged by z3 for all n '
+         'and all draws. null_model_und_sign/_dir_sign (argsort/delete bookkeeping) are outside the subset: bounded only (signed graphs n<=5/4, wei_freq, bin_swaps, seeds) '
+         'incl. recomputed strength correlations.',
+         PROOF_NOTE, 'pyvc + z3 on the real source (2 of 4 routines); bounded stand-in for the null models', '5/C06'),
+ 'C11': ('other',
+         'Mixed: deductive (pyvc+z3, all inputs) for the lattice-cost clause of the four latticisers (sum(D*R) never rises; for the undirected ones under a symmetric D), the '
+         'mask clause of randomize_graph_partial_und and input rejection of randmio_und_connected / latmio_und_connected (execution passes the checks only if allclose(R,R.T) '
+         'and number_of_components(R) <= 1, every other path raises BCTParamError). Connectivity preservation needs transitive-closure reasoning the VC generator cannot '
+         'decide: bounded only (woven monitor: connected after every accepted swap, all connected graphs n<=5 / strongly connected digraphs n=4, scripts to a stated depth).',
+         PROOF_NOTE + ' The symmetry of the default distance-to-diagonal matrix is assumed in the proof and checked by the bounded tier only.',
+         'pyvc + z3 for cost/mask/rejection clauses; woven connectivity monitor over exhaustive small scopes (bounded) for the connectivity clause', '5/C11'),
+ 'C17': ('proof',
+         'Deductive (pyvc+z3, all matrices, all thr, both copy flags) for threshold_absolute (exactly the off-diagonal entries >= thr survive), binarize, invert (w -> 1/w on the '
+         'support and self-inverse), normalize (common factor, largest magnitude exactly 1, needs a nonzero entry), teachers_round (nearest integer, exact halves away from zero) '
+         'and the copy-flag identity clauses (copy=True: argument untouched, fresh result; copy=False: the result is the argument). threshold_proportional and the weight_conversion '
+         'dispatch are bounded only (all matrices n<=3 over {0,1,2}, p grid incl. every .5 boundary, both flags).',
+         PROOF_NOTE, 'pyvc + z3 on the real source for 5 utilities; bounded stand-in for threshold_proportional / weight_conversion', '5/C17'),
 }
+for _pid in ['C02', 'C03', 'C04', 'C05', 'C07', 'C08', 'C09', 'C10', 'C12', 'C13', 'C14', 'C15', 'C16', 'C18', 'C19', 'C20']:
+    CLAIMS[_pid] = ('exploration', BND + 'See DESIGN.md section 5/%s for the clauses and why the deductive tier does not (yet) reach them.' % _pid,
+                    BND_NOTE % _pid, 'runtime contracts on the real code over exhaustive small scopes (bounded stand-in)', '5/' + _pid)
 NOT_YET = 'check not built yet in this round (see DESIGN.md section 10); no claim is made'
 
 def main():
@@ -44,7 +77,7 @@ def main():
             'add_only': True,
         },
         'engines': [
-            {'name': 'pyvc', 'path': 'engine/pyvc', 'serves_properties': [], 'kind_free_text': 'AST -> verification conditions -> z3/cvc5 over the real source, sidecar contracts (deductive, unbounded)'},
+            {'name': 'pyvc', 'path': 'engine/pyvc', 'serves_properties': ['C01', 'C06', 'C11', 'C17'], 'kind_free_text': 'AST -> verification conditions -> z3/cvc5 over the real source, sidecar contracts (deductive, unbounded)'},
             {'name': 'pyframe', 'path': 'engine/pyframe', 'serves_properties': [], 'kind_free_text': 'static frame (mutation/alias) and effect (RNG) obligations over the real AST'},
             {'name': 'lean', 'path': 'engine/lean', 'serves_properties': [], 'kind_free_text': 'Lean 4 + Mathlib lemma library for finite sums/modularity identities'},
             {'name': 'weave', 'path': 'engine/weave.py', 'serves_properties': sorted(CLAIMS), 'kind_free_text': 'bounded stand-in: the same contracts executed on the real functions over exhaustive small scopes with a scripted RandomState'},
